@@ -49,3 +49,6 @@ unsigned g_ls_calls; const struct jwk_set *g_ls_set; const void *g_ls_src; size_
 
 /* jwt_checker_claim_set unit: what the setter was asked to store */
 int g_set_type, g_set_replace; const char *g_set_name, *g_set_str;
+
+/* completeness units of the JWK importers (C08): refusal record, well-formedness parameters */
+int g_wf_bad, g_wf_private, g_wf_maxlen, g_ec_degree;
